@@ -488,6 +488,75 @@ def diff_views(model, impl):
     return [VIEW_NAMES[i] for i in range(len(VIEW_NAMES)) if tolist(model[i]) != tolist(impl[i])]
 
 
+# ---- regions: independent brute-force validity (convexity) test --------------------------------------
+def region_verdict(s, region):
+    """Independent judgement of a region {qudit: (lower, upper)} on a snapshot: 'empty', 'bad_location',
+    'bad_interval', 'off_circuit', 'disconnect' (some dependency path leaves the region and re-enters it) or 'ok'.
+    The operations of the region are those lying entirely inside it."""
+    n, rads, cycles = s
+    region = dict(region)
+    if not region:
+        return 'empty'
+    if any((not isinstance(q, int)) or q < 0 or q >= n for q in region):
+        return 'bad_location'
+    if any(lo < 0 or hi < lo for lo, hi in region.values()):
+        return 'bad_interval'
+    if max(hi for lo, hi in region.values()) >= len(cycles):
+        return 'off_circuit'
+    ops = [(cy, o) for cy, cyc in enumerate(cycles) for o in cyc]
+    inside = [all(q in region and region[q][0] <= cy <= region[q][1] for q in o[2]) for cy, o in ops]
+    last = {}
+    succ = [[] for _ in ops]
+    for i, (cy, o) in enumerate(ops):       # ops are listed cycle by cycle
+        for q in o[2]:
+            if q in last:
+                succ[last[q]].append(i)
+            last[q] = i
+    # walk from the region through outside operations only
+    seen = set()
+    todo = [j for i in range(len(ops)) if inside[i] for j in succ[i] if not inside[j]]
+    while todo:
+        j = todo.pop()
+        if j in seen:
+            continue
+        seen.add(j)
+        for k in succ[j]:
+            if inside[k]:
+                return 'disconnect'
+            todo.append(k)
+    return 'ok'
+
+
+def nonconvex_region(rng, s):
+    """A region around two operations A, C connected through a chain of >= 2 other operations (or None)."""
+    n, rads, cycles = s
+    ops = [(cy, o) for cy, cyc in enumerate(cycles) for o in cyc]
+    if len(ops) < 4:
+        return None
+    last = {}
+    succ = [[] for _ in ops]
+    for i, (cy, o) in enumerate(ops):
+        for q in o[2]:
+            if q in last:
+                succ[last[q]].append(i)
+            last[q] = i
+    for _ in range(20):
+        a = rng.randrange(len(ops))
+        path = [a]
+        while succ[path[-1]] and len(path) < rng.randint(4, 6):
+            path.append(rng.choice(succ[path[-1]]))
+        if len(path) < 4:
+            continue
+        (ca, oa), (cc_, oc) = ops[path[0]], ops[path[-1]]
+        reg = {}
+        for q in oa[2]:
+            reg[q] = (ca, ca)
+        for q in oc[2]:
+            reg[q] = (reg[q][0], cc_) if q in reg else (cc_, cc_)
+        return tuple(sorted(reg.items()))
+    return None
+
+
 # ---- random calls ------------------------------------------------------------------------
 def rand_params(rng, k):
     return tuple(rng.randint(1, 99) for _ in range(k))
